@@ -1,0 +1,9 @@
+//go:build verif
+
+// Contracts for package irma, checked by /verif/govc (comment-only; not part of any normal build).
+
+package irma
+
+//@ func parseSignerAttributes
+//@   prop C20
+//@   call mapupdate #1 requires !strictMode || schemeManager == "pbdf"
